@@ -26,7 +26,7 @@ RULE = (
     "one_clip: every pair (annotated list, predicted list) with 0..2 events each; an annotated event = geometry in "
     "{none, A, B overlapping A, C disjoint} x tags; a predicted event = geometry x score vector over the 2-tag vocabulary "
     "(quick: 3 tag sets x 3 vectors; thorough: 5 x 10; both incl. out-of-vocabulary annotated and predicted tags). clips: two clip slots x "
-    "{both, only annotated, only predicted, absent} x 6 content presets each x both orders of the prediction list x 3 vocabularies. "
+    "{both, only annotated, only predicted, absent} x 7 content presets each x both orders of the prediction list x 3 vocabularies. "
     "Non-trivial = at least one annotated and one predicted event with geometry in an evaluated clip. State = case descriptor."
 )
 ASSUMPTIONS = [
@@ -53,6 +53,9 @@ GEOMS = {
     "B": ("BoundingBox", [1.5, 1500.0, 2.5, 2500.0]),
     "C": ("BoundingBox", [5.0, 3000.0, 6.0, 4000.0]),
     "I": ("TimeInterval", [1.25, 2.25]),
+    # two multipoints on opposite corners of the same rectangle: identical bounds, no common point (affinity 0)
+    "M1": ("MultiPoint", [[7.0, 1000.0], [9.0, 3000.0]]),
+    "M2": ("MultiPoint", [[7.0, 3000.0], [9.0, 1000.0]]),
 }
 ANN_TAGS = {"quick": [[], ["t0"], ["oov", "t1"]],
             "thorough": [[], ["t0"], ["t1"], ["oov"], ["oovt", "t1"]]}
@@ -72,6 +75,7 @@ PRESETS = [
     {"ann": [["none", ["t0"]]], "pred": [["B", [["t0", 0.25], ["t1", 0.5]]]]},
     {"ann": [["A", ["t0"]], ["B", []]], "pred": [["I", [["t1", 0.5]]]]},
     {"ann": [["C", ["oov"]]], "pred": [["C", []], ["A", [["t0", 0.5]]], ["none", [["t1", 0.25]]]]},
+    {"ann": [["M1", ["t0"]], ["A", ["t1"]]], "pred": [["M2", [["t0", 0.5]]], ["B", [["t1", 0.5]]]]},
 ]
 PATTERNS = ["both", "ann", "pred", "absent"]
 
